@@ -289,4 +289,14 @@ namespace ada {
 #define ADA_INCLUDE_URL_PATTERN 1
 #endif  // ADA_INCLUDE_URL_PATTERN
 
+// Observation hooks for external verification harnesses; compiled out unless
+// ADA_URL_ADA_VERIF is defined to a non-zero value.
+#if ADA_URL_ADA_VERIF
+#include "ada/verif_hooks.h"
+#else
+#define ADA_VERIF_COUNT(id)
+#define ADA_VERIF_SCHED(point)
+#define ADA_VERIF_LIMIT_READ()
+#endif  // ADA_URL_ADA_VERIF
+
 #endif  // ADA_COMMON_DEFS_H
